@@ -221,7 +221,7 @@ func planSampler(r *rand.Rand, conc *Conc) samplerPlan {
 // runTracer builds ONE TracerProvider from the sampler plan and the limit plans (restricted to
 // `only` when non-empty), takes the sampling decisions for the probe ids and exports one span
 // that offers more of everything than any configured limit.
-func runTracer(sp *samplerPlan, lims []limPlan, conc *Conc) (special, detail string, samplerObs []string, limObs map[string][]string, env []string, opt string) {
+func runTracer(sp *samplerPlan, lims []limPlan, conc *Conc, structKind string) (special, detail string, samplerObs []string, limObs map[string][]string, env []string, opt string) {
 	clearEnv()
 	defer clearEnv()
 	setenv := func(kv [2]string) {
@@ -263,7 +263,20 @@ func runTracer(sp *samplerPlan, lims []limPlan, conc *Conc) (special, detail str
 		for _, lp := range lims {
 			anyOpt = anyOpt || lp.hasOpt
 		}
-		if anyOpt {
+		if structKind != "" {
+			// literal struct: every field comes from the option, also the zero-valued ones
+			var lim sdktrace.SpanLimits
+			for _, lp := range lims {
+				setSpanLimit(&lim, lp.setting, lp.optV)
+				optText = append(optText, fmt.Sprintf("%s=%d", lp.setting, lp.optV))
+			}
+			if structKind == "raw" {
+				opts = append(opts, sdktrace.WithRawSpanLimits(lim))
+			} else {
+				opts = append(opts, sdktrace.WithSpanLimits(lim))
+			}
+			optText = append(optText, "literal:"+structKind)
+		} else if anyOpt {
 			lim := sdktrace.NewSpanLimits()
 			for _, lp := range lims {
 				if !lp.hasOpt {
@@ -379,25 +392,75 @@ func setSpanLimit(lim *sdktrace.SpanLimits, setting string, v int) {
 	}
 }
 
+// planStruct: a literal SpanLimits struct with a random class per field, every field's variables random.
+func planStruct(r *rand.Rand, conc *Conc, kind string) []limPlan {
+	var out []limPlan
+	for _, st := range spanLimitSettings {
+		class := []string{"zero", "neg", "valid"}[r.Intn(3)]
+		var o Src
+		switch {
+		case class == "valid":
+			o = valid("O")
+		case kind == "nonraw":
+			o = Src{K: "nr" + class}
+		case class == "neg":
+			o = Src{K: "rawneg"}
+		default:
+			o = Src{K: "zero"}
+		}
+		lp := limPlan{setting: st, srcs: []Src{o}, hasOpt: true, optV: fieldValue(st, class, conc)}
+		for i, n := range sdkEnvNames[st] {
+			s := numEnvSrc(r, []string{"S", "G"}[i])
+			lp.srcs = append(lp.srcs, s)
+			if v, ok := conc.envNum(st, s); ok {
+				lp.env = append(lp.env, [2]string{n, v})
+			}
+		}
+		out = append(out, lp)
+	}
+	return out
+}
+
 func tracerScenario(r *rand.Rand, conc *Conc, res *vh.Result) []caseObs {
 	sp := planSampler(r, conc)
-	lims := planLimits(r, conc, spanLimitSettings, 60)
-	special, detail, sObs, lObs, env, opt := runTracer(&sp, lims, conc)
+	structKind := ""
+	var lims []limPlan
+	switch x := r.Intn(100); {
+	case x < 25:
+		structKind = "raw"
+		lims = planStruct(r, conc, structKind)
+	case x < 40:
+		structKind = "nonraw"
+		lims = planStruct(r, conc, structKind)
+	default:
+		lims = planLimits(r, conc, spanLimitSettings, 60)
+	}
+	if structKind != "" {
+		res.Count("random.tracer.struct."+structKind, 1)
+	}
+	special, detail, sObs, lObs, env, opt := runTracer(&sp, lims, conc, structKind)
 	var out []caseObs
 	if special == "HANG" {
 		res.Inconcl("watchdog expired: tracer scenario env=" + strings.Join(env, " ") + "\n" + detail)
 		return nil
 	}
+	if special == "PANIC" && structKind != "" {
+		out = append(out, caseObs{Fam: "sampler", Comp: "sdk", Setting: "sampler", Srcs: sp.srcs, Obs: []string{special}, Detail: detail, Env: env, Opt: opt})
+		for _, lp := range lims {
+			out = append(out, caseObs{Fam: "scalar", Comp: "sdk", Setting: lp.setting, Srcs: lp.srcs, Obs: []string{special}, Detail: detail, Env: env, Opt: opt})
+		}
+		return out
+	}
 	if special == "PANIC" {
 		// attribute the panic: every setting alone, same concrete values
 		res.Count("random.tracer.panic", 1)
-		s1, d1, so, _, e1, o1 := runTracer(&sp, nil, conc)
+		s1, d1, so, _, e1, o1 := runTracer(&sp, nil, conc, "")
 		if s1 != "" {
 			so = []string{s1}
 		}
 		out = append(out, caseObs{Fam: "sampler", Comp: "sdk", Setting: "sampler", Srcs: sp.srcs, Obs: so, Detail: d1, Env: e1, Opt: o1})
 		for _, lp := range lims {
-			s2, d2, _, lo, e2, o2 := runTracer(nil, []limPlan{lp}, conc)
+			s2, d2, _, lo, e2, o2 := runTracer(nil, []limPlan{lp}, conc, "")
 			obs := lo[lp.setting]
 			if s2 != "" {
 				obs = []string{s2}
@@ -545,6 +608,13 @@ func randomScenario(r *rand.Rand, conc *Conc, res *vh.Result) []map[string]any {
 	var cases []caseObs
 	t0 := time.Now()
 	switch x := r.Intn(100); {
+	case x < 8:
+		proc, ev := crossScenario(r, conc, res)
+		res.Count("random.kind.cross", 1)
+		res.Count("random.cross."+proc, 1)
+		res.Evaluations++
+		ev["ms"] = time.Since(t0).Milliseconds()
+		return []map[string]any{ev}
 	case x < 50:
 		kind = "exporter"
 		comp, cases = exporterScenario(r, conc, res)
